@@ -5,31 +5,50 @@ From OG Require Import C10.Model C10.Proofs C13.Model C13.Proofs C13.Tree C13.Tr
 Import ListNotations.
 Open Scope N_scope.
 
-(* ---- the catalogue of live incarnations *)
-Definition curl (l : list (N * N)) (n : N) : option N :=
-  match find (fun x => fst x =? n) l with Some x => Some (snd x) | None => None end.
-Lemma cur_curl p n : cur p n = curl (p_cur p) n.
+(* ---- the catalogue of live incarnations, keyed by (measurement name, index group) *)
+Definition curl (l : list (ckey * N)) (k : ckey) : option N :=
+  match find (fun x => ckey_eqb (fst x) k) l with Some x => Some (snd x) | None => None end.
+Lemma ckey_eqb_eq a b : ckey_eqb a b = true <-> a = b.
+Proof. unfold ckey_eqb. rewrite andb_true_iff, !N.eqb_eq. destruct a, b; simpl. split; [intros [-> ->]; auto | intros E; inversion E; auto]. Qed.
+Lemma ckey_eqb_refl a : ckey_eqb a a = true.
+Proof. apply ckey_eqb_eq. reflexivity. Qed.
+Lemma cur_curl p k : cur p k = curl (p_cur p) k.
 Proof. reflexivity. Qed.
-Lemma curl_in l n pm : curl l n = Some pm -> In (n, pm) l.
+Lemma curl_in l k pm : curl l k = Some pm -> In (k, pm) l.
 Proof.
-  unfold curl. destruct (find (fun x => fst x =? n) l) as [[a b] |] eqn:E; [| discriminate]. intros H. inversion H; subst.
-  apply find_some in E. destruct E as [Hin Hb]. simpl in Hb. apply N.eqb_eq in Hb. subst. exact Hin.
+  unfold curl. destruct (find (fun x => ckey_eqb (fst x) k) l) as [[a b] |] eqn:E; [| discriminate]. intros H. inversion H; subst.
+  apply find_some in E. destruct E as [Hin Hb]. simpl in Hb. apply ckey_eqb_eq in Hb. subst. exact Hin.
 Qed.
-Lemma curl_snoc l n0 pm0 n :
-  curl (l ++ [(n0, pm0)]) n = match curl l n with Some y => Some y | None => if n0 =? n then Some pm0 else None end.
+Lemma curl_of_in l k pm : NoDup (map fst l) -> In (k, pm) l -> curl l k = Some pm.
 Proof.
-  unfold curl. rewrite find_app_. destruct (find (fun x => fst x =? n) l); auto. simpl. destruct (n0 =? n); auto.
+  unfold curl. induction l as [| [a b] r IH]; simpl; intros Hnd Hin; [destruct Hin |]. inversion Hnd as [| ? ? Hni Hnd']; subst.
+  destruct Hin as [E | Hin].
+  - inversion E; subst. rewrite ckey_eqb_refl. reflexivity.
+  - destruct (ckey_eqb a k) eqn:Ek; [| apply IH; auto]. apply ckey_eqb_eq in Ek. subst a. exfalso. apply Hni.
+    apply in_map_iff. exists (k, pm). auto.
 Qed.
-Lemma curl_filter l n0 n :
-  curl (filter (fun x => negb (fst x =? n0)) l) n = if n =? n0 then None else curl l n.
+Lemma curl_snoc l k0 pm0 k :
+  curl (l ++ [(k0, pm0)]) k = match curl l k with Some y => Some y | None => if ckey_eqb k0 k then Some pm0 else None end.
 Proof.
-  unfold curl. induction l as [| [a b] r IH]; simpl; [destruct (n =? n0); auto |].
-  destruct (a =? n0) eqn:E0; simpl.
-  - rewrite IH. destruct (n =? n0) eqn:E; auto. destruct (a =? n) eqn:E1; auto.
-    apply N.eqb_eq in E0, E1. subst. rewrite N.eqb_refl in E. discriminate.
-  - destruct (a =? n) eqn:E1; simpl.
-    + apply N.eqb_eq in E1. subst. rewrite E0. reflexivity.
+  unfold curl. rewrite find_app_. destruct (find (fun x => ckey_eqb (fst x) k) l); auto. simpl. destruct (ckey_eqb k0 k); auto.
+Qed.
+Lemma curl_filter l n0 k :
+  curl (filter (fun x => negb (fst (fst x) =? n0)) l) k = if fst k =? n0 then None else curl l k.
+Proof.
+  unfold curl. induction l as [| [a b] r IH]; simpl; [destruct (fst k =? n0); auto |].
+  destruct (fst a =? n0) eqn:E0; simpl.
+  - rewrite IH. destruct (fst k =? n0) eqn:E; auto. destruct (ckey_eqb a k) eqn:E1; auto.
+    apply ckey_eqb_eq in E1. subst. congruence.
+  - destruct (ckey_eqb a k) eqn:E1; simpl.
+    + apply ckey_eqb_eq in E1. subst. rewrite E0. reflexivity.
     + exact IH.
+Qed.
+Lemma in_pms p n g pm : In (g, pm) (pms p n) <-> In ((n, g), pm) (p_cur p).
+Proof.
+  unfold pms. rewrite in_map_iff. split.
+  - intros ([[n' g'] pm'] & E & Hin). apply filter_In in Hin. destruct Hin as [Hin Hn]. simpl in *. apply N.eqb_eq in Hn.
+    inversion E; subst. exact Hin.
+  - intros Hin. exists ((n, g), pm). split; auto. apply filter_In. split; auto. simpl. apply N.eqb_refl.
 Qed.
 
 (* ---- facts about the index write *)
@@ -61,20 +80,37 @@ Record LI (p : policy) (R : list lrow) : Prop := mkLI {
                          exists tags, In (mkS (r_m x) tags, r_id x) (d_L (p_ix p)) /\ ~ In (r_id x) (d_del (p_ix p));
   li_mbound : forall e, In e (d_L (p_ix p)) -> s_mst (fst e) <= p_nextm p;
   li_cbound : forall x, In x (p_cur p) -> snd x <= p_nextm p;
-  li_cinj : forall n1 n2 pm, cur p n1 = Some pm -> cur p n2 = Some pm -> n1 = n2;
-  li_hasrow : forall k id n, In (k, id) (d_L (p_ix p)) -> ~ In id (d_del (p_ix p)) -> cur p n = Some (s_mst k) ->
-                             exists t v w, In (mkR (s_mst k) id t v w) (lww (p_all p));
+  li_cnodup : NoDup (map fst (p_cur p));
+  li_cinj : forall k1 k2 pm, cur p k1 = Some pm -> cur p k2 = Some pm -> k1 = k2;
+  (* the indexes: every identity lives in an existing index; every index consults the policy's deleted set *)
+  li_curidx : forall k pm, cur p k = Some pm -> In (snd k) (map fst (p_idx p));
+  li_wired : (p_table p = false -> d_del (p_ix p) = []) /\ (p_table p = true -> forall x, In x (p_idx p) -> snd x = true);
+  li_rowgrp : forall x k, In x (p_all p) -> cur p k = Some (r_m x) -> grp (r_t x) = snd k;
+  li_hasrow : forall k id ck, In (k, id) (d_L (p_ix p)) -> ~ In id (d_del (p_ix p)) -> cur p ck = Some (s_mst k) ->
+                              exists t v w, In (mkR (s_mst k) id t v w) (lww (p_all p));
   li_abs : forall n tags t v w, In (mkL n tags t v w) R <->
-     exists pm id, cur p n = Some pm /\ In (mkS pm tags, id) (d_L (p_ix p)) /\ ~ In id (d_del (p_ix p)) /\
+     exists pm id, cur p (n, grp t) = Some pm /\ In (mkS pm tags, id) (d_L (p_ix p)) /\ ~ In id (d_del (p_ix p)) /\
                    In (mkR pm id t v w) (lww (p_all p))
 }.
 
 Lemma LI_empty : LI empty_policy [].
 Proof.
   constructor; simpl; try (intros; contradiction); auto.
-  - repeat split; simpl; try constructor; intros; contradiction.
-  - intros n1 n2 pm H. discriminate.
-  - intros. split; [intros [] | intros (pm & id & H & _)]. discriminate.
+  all: try (repeat split; simpl; try constructor; intros; try contradiction; discriminate).
+  intros. split; [intros [] | intros (pm & id & H & _)]. discriminate.
+Qed.
+
+Lemma cur_in_iff p R k pm : LI p R -> (cur p k = Some pm <-> In (k, pm) (p_cur p)).
+Proof. intros H. rewrite cur_curl. split; [apply curl_in | apply curl_of_in; apply (li_cnodup _ _ H)]. Qed.
+
+(* every index that exists consults exactly the policy's deleted set (the wiring theorem, inside the refinement) *)
+Lemma eff_ok p R g : LI p R -> In g (map fst (p_idx p)) -> eff p g = d_del (p_ix p).
+Proof.
+  intros H Hg. destruct (li_wired _ _ H) as [Hf Ht]. unfold eff. destruct (p_table p) eqn:Et.
+  - assert (wiredb p g = true); [| rewrite H0; reflexivity].
+    unfold wiredb. apply existsb_exists. apply in_map_iff in Hg. destruct Hg as ([g' b] & E & Hin). simpl in E. subst g'.
+    exists (g, b). split; auto. simpl. rewrite N.eqb_refl. simpl. apply (Ht eq_refl (g, b) Hin).
+  - rewrite (Hf eq_refl). destruct (wiredb p g); reflexivity.
 Qed.
 
 Definition entry_eq_dec : forall a b : entry, {a = b} + {a <> b}.
@@ -90,39 +126,61 @@ Proof. unfold same_lpt. rewrite !andb_true_iff, !N.eqb_eq, tagset_eqb_eq. tauto.
 
 (* ---- WRITE *)
 Lemma LI_write p R n0 tags0 t0 v0 w0 : LI p R -> wf_tags tags0 ->
-  LI (p_write p n0 tags0 t0 v0 w0) (s_write R n0 tags0 t0 v0 w0).
+  LI (p_write true p n0 tags0 t0 v0 w0) (s_write R n0 tags0 t0 v0 w0).
 Proof.
-  intros H Htags.
-  (* the measurement *)
-  set (p1 := fst (ensure_mst p n0)). set (pm := snd (ensure_mst p n0)).
-  assert (Hix1 : p_ix p1 = p_ix p) by (unfold p1, ensure_mst; destruct (cur p n0); reflexivity).
-  assert (Hall1 : p_all p1 = p_all p) by (unfold p1, ensure_mst; destruct (cur p n0); reflexivity).
-  assert (Hdeld1 : p_deld p1 = p_deld p) by (unfold p1, ensure_mst; destruct (cur p n0); reflexivity).
-  assert (Hmem1 : p_mem p1 = p_mem p) by (unfold p1, ensure_mst; destruct (cur p n0); reflexivity).
-  assert (Hfiles1 : p_files p1 = p_files p) by (unfold p1, ensure_mst; destruct (cur p n0); reflexivity).
-  assert (Hcur1 : forall n, cur p1 n = match cur p n with Some y => Some y | None => if n0 =? n then Some pm else None end).
-  { intros n. unfold p1, pm, ensure_mst. destruct (cur p n0) eqn:E; simpl.
-    - destruct (cur p n) eqn:E2; auto. destruct (n0 =? n) eqn:E3; auto. apply N.eqb_eq in E3. subst. congruence.
-    - rewrite !cur_curl. simpl. apply curl_snoc. }
-  assert (Hpm : cur p1 n0 = Some pm).
-  { rewrite Hcur1. unfold pm, ensure_mst. destruct (cur p n0) eqn:E; simpl; auto. rewrite N.eqb_refl. reflexivity. }
-  assert (Hnext1 : p_nextm p <= p_nextm p1) by (unfold p1, ensure_mst; destruct (cur p n0); simpl; lia).
-  assert (Hfresh : cur p n0 = None -> pm = p_nextm p + 1 /\ p_nextm p1 = pm).
-  { intros E. unfold pm, p1, ensure_mst. rewrite E. simpl. auto. }
+  intros H Htags. set (g0 := grp t0). set (c0 := (n0, g0)).
+  (* the index of the group *)
+  set (pz := ensure_idx true p g0).
+  assert (Hz : p_cur pz = p_cur p /\ p_nextm pz = p_nextm p /\ p_ix pz = p_ix p /\ p_table pz = p_table p /\
+               p_deld pz = p_deld p /\ p_mem pz = p_mem p /\ p_files pz = p_files p).
+  { unfold pz, ensure_idx. destruct (existsb (fun x => fst x =? g0) (p_idx p)); simpl; repeat split. }
+  destruct Hz as (Zc & Zn & Zi & Zt & Zd & Zm & Zf).
+  assert (Zcur : forall k, cur pz k = cur p k) by (intros k; unfold cur; rewrite Zc; reflexivity).
+  assert (Zidx : forall g, In g (map fst (p_idx pz)) <-> In g (map fst (p_idx p)) \/ g = g0).
+  { intros g. unfold pz, ensure_idx. destruct (existsb (fun x => fst x =? g0) (p_idx p)) eqn:E; simpl.
+    - split; auto. intros [A | ->]; auto. apply existsb_exists in E. destruct E as (x & Hx & Ex). apply N.eqb_eq in Ex.
+      apply in_map_iff. exists x. auto.
+    - rewrite map_app, in_app_iff. simpl. intuition. }
+  assert (Zwired : (p_table pz = false -> d_del (p_ix pz) = []) /\ (p_table pz = true -> forall x, In x (p_idx pz) -> snd x = true)).
+  { destruct (li_wired _ _ H) as [Hf Ht]. rewrite Zt, Zi. split; auto. intros Et x Hx.
+    unfold pz, ensure_idx in Hx. destruct (existsb (fun y => fst y =? g0) (p_idx p)); simpl in Hx; [apply (Ht Et x Hx) |].
+    apply in_app_iff in Hx. destruct Hx as [Hx | [<- | []]]; [apply (Ht Et x Hx) | simpl; rewrite Et; reflexivity]. }
+  (* the measurement's identity in that index *)
+  set (p1 := fst (ensure_mst pz c0)). set (pm := snd (ensure_mst pz c0)).
+  assert (Hix1 : p_ix p1 = p_ix p) by (unfold p1, ensure_mst; destruct (cur pz c0); simpl; auto).
+  assert (Hdeld1 : p_deld p1 = p_deld p) by (unfold p1, ensure_mst; destruct (cur pz c0); simpl; auto).
+  assert (Hmem1 : p_mem p1 = p_mem p) by (unfold p1, ensure_mst; destruct (cur pz c0); simpl; auto).
+  assert (Hfiles1 : p_files p1 = p_files p) by (unfold p1, ensure_mst; destruct (cur pz c0); simpl; auto).
+  assert (Htab1 : p_table p1 = p_table pz) by (unfold p1, ensure_mst; destruct (cur pz c0); simpl; auto).
+  assert (Hidx1 : p_idx p1 = p_idx pz) by (unfold p1, ensure_mst; destruct (cur pz c0); simpl; auto).
+  assert (Hcur1 : forall k, cur p1 k = match cur p k with Some y => Some y | None => if ckey_eqb c0 k then Some pm else None end).
+  { intros k. unfold p1, pm, ensure_mst. rewrite (Zcur c0). destruct (cur p c0) eqn:E; simpl.
+    - rewrite Zcur. destruct (cur p k) eqn:E2; auto. destruct (ckey_eqb c0 k) eqn:E3; auto. apply ckey_eqb_eq in E3. subst. congruence.
+    - rewrite !cur_curl. simpl. rewrite Zc. apply curl_snoc. }
+  assert (Hpm : cur p1 c0 = Some pm).
+  { rewrite Hcur1. unfold pm, ensure_mst. rewrite (Zcur c0). destruct (cur p c0) eqn:E; simpl; auto. rewrite ckey_eqb_refl. reflexivity. }
+  assert (Hnext1 : p_nextm p <= p_nextm p1) by (unfold p1, ensure_mst; destruct (cur pz c0); simpl; lia).
+  assert (Hfresh : cur p c0 = None -> pm = p_nextm p + 1 /\ p_nextm p1 = pm /\ p_cur p1 = p_cur p ++ [(c0, pm)]).
+  { intros E. unfold pm, p1, ensure_mst. rewrite (Zcur c0), E. simpl. rewrite Zn, Zc. auto. }
+  assert (Hkept : forall pm', cur p c0 = Some pm' -> pm = pm' /\ p_cur p1 = p_cur p /\ p_nextm p1 = p_nextm p).
+  { intros pm' E. unfold pm, p1, ensure_mst. rewrite (Zcur c0), E. simpl. auto. }
   assert (Hpmb : pm <= p_nextm p1).
-  { destruct (cur p n0) eqn:E.
-    - assert (pm = n) by (unfold pm, ensure_mst; rewrite E; reflexivity). subst n.
-      rewrite cur_curl in E. apply curl_in in E. apply (li_cbound _ _ H) in E. simpl in E. lia.
-    - destruct (Hfresh eq_refl). lia. }
-  assert (Hcinj1 : forall n1 n2 m, cur p1 n1 = Some m -> cur p1 n2 = Some m -> n1 = n2).
-  { intros n1 n2 m. rewrite !Hcur1. destruct (cur p n1) eqn:E1, (cur p n2) eqn:E2; intros A B.
+  { destruct (cur p c0) eqn:E.
+    - destruct (Hkept _ eq_refl) as (-> & _ & ->). rewrite cur_curl in E. apply curl_in in E. apply (li_cbound _ _ H) in E. exact E.
+    - destruct (Hfresh eq_refl) as (_ & -> & _). lia. }
+  assert (Hcinj1 : forall k1 k2 m, cur p1 k1 = Some m -> cur p1 k2 = Some m -> k1 = k2).
+  { intros k1 k2 m. rewrite !Hcur1. destruct (cur p k1) eqn:E1, (cur p k2) eqn:E2; intros A B.
     - inversion A; inversion B; subst. eapply (li_cinj _ _ H); eauto.
-    - destruct (n0 =? n2) eqn:E; [| discriminate]. apply N.eqb_eq in E. subst n2. destruct (Hfresh E2) as [Hp _].
+    - destruct (ckey_eqb c0 k2) eqn:E; [| discriminate]. apply ckey_eqb_eq in E. subst k2. destruct (Hfresh E2) as (Hp & _).
       inversion A; inversion B; subst. rewrite cur_curl in E1. apply curl_in in E1. apply (li_cbound _ _ H) in E1. simpl in E1. lia.
-    - destruct (n0 =? n1) eqn:E; [| discriminate]. apply N.eqb_eq in E. subst n1. destruct (Hfresh E1) as [Hp _].
+    - destruct (ckey_eqb c0 k1) eqn:E; [| discriminate]. apply ckey_eqb_eq in E. subst k1. destruct (Hfresh E1) as (Hp & _).
       inversion A; inversion B; subst. rewrite cur_curl in E2. apply curl_in in E2. apply (li_cbound _ _ H) in E2. simpl in E2. lia.
-    - destruct (n0 =? n1) eqn:Ea; [| discriminate]. destruct (n0 =? n2) eqn:Eb; [| discriminate].
-      apply N.eqb_eq in Ea, Eb. congruence. }
+    - destruct (ckey_eqb c0 k1) eqn:Ea; [| discriminate]. destruct (ckey_eqb c0 k2) eqn:Eb; [| discriminate].
+      apply ckey_eqb_eq in Ea, Eb. congruence. }
+  (* a key that has an identity in p1 and whose identity is not above the old bound had it before *)
+  assert (Hcold : forall k m, cur p1 k = Some m -> m <= p_nextm p -> cur p k = Some m).
+  { intros k m Hc Hm. rewrite Hcur1 in Hc. destruct (cur p k) eqn:E; auto. destruct (ckey_eqb c0 k) eqn:E0; [| discriminate].
+    apply ckey_eqb_eq in E0. subst k. destruct (Hfresh E) as (Hp & _). inversion Hc. lia. }
   (* the index write *)
   pose proof (li_dwf _ _ H) as Hdwf.
   set (k0 := mkS pm tags0).
@@ -136,8 +194,6 @@ Proof.
   assert (Hnew : forall k id, In (k, id) (d_L ix') -> ~ In (k, id) (d_L (p_ix p)) -> k = k0 /\ id = id0 /\ d_next (p_ix p) < id0).
   { intros k id Hin Hn. destruct Wcase as [E | (E & Hlt & _)]; rewrite E in Hin; [contradiction |].
     apply in_app_iff in Hin. destruct Hin as [Hin | [Hin | []]]; [contradiction |]. inversion Hin; subst. auto. }
-  assert (Hidb : forall k id, In (k, id) (d_L (p_ix p)) -> id <= d_next (p_ix p)).
-  { intros k id Hin. destruct Hdwf as (_ & Hb & _). apply (Hb (k, id) Hin). }
   assert (Hone' : forall k i1 i2, In (k, i1) (d_L ix') -> In (k, i2) (d_L ix') ->
                                   ~ In i1 (d_del (p_ix p)) -> ~ In i2 (d_del (p_ix p)) -> i1 = i2).
   { intros k i1 i2 H1 H2 N1 N2.
@@ -149,46 +205,62 @@ Proof.
     + destruct (Hnew _ _ H1 A1) as (-> & -> & _). destruct Wcase as [E | (_ & _ & _ & Hall)]; [rewrite E in H1; contradiction |].
       exfalso. apply N2. apply Hall. exact A2.
     + destruct (Hnew _ _ H1 A1) as (_ & -> & _). destruct (Hnew _ _ H2 A2) as (_ & -> & _). reflexivity. }
-  unfold p_write. fold p1 pm. rewrite Hix1. fold k0 ix' id0.
+  unfold p_write. fold g0 c0 pz p1 pm. rewrite Hix1. fold k0 ix' id0.
   set (x0 := mkR pm id0 t0 v0 w0).
-  assert (Hallnew : p_all (mkP (p_cur p1) (p_nextm p1) ix' (p_deld p1) (p_mem p1 ++ [x0]) (p_files p1)) = p_all p ++ [x0]).
-  { unfold p_all. simpl. rewrite Hmem1, Hfiles1, app_assoc. reflexivity. }
-  constructor; simpl.
+  set (pN := mkP (p_cur p1) (p_nextm p1) ix' (p_table p1) (p_idx p1) (p_deld p1) (p_mem p1 ++ [x0]) (p_files p1)).
+  assert (Hallnew : p_all pN = p_all p ++ [x0]).
+  { unfold p_all, pN. simpl. rewrite Hmem1, Hfiles1, app_assoc. reflexivity. }
+  assert (HcurN : forall k, cur pN k = cur p1 k) by reflexivity.
+  constructor; fold pN.
   - exact Hdwf'.
-  - rewrite Hdeld1, Wdel. apply (li_deld _ _ H).
-  - rewrite Wdel. exact Hone'.
+  - simpl. rewrite Hdeld1, Wdel. apply (li_deld _ _ H).
+  - simpl. rewrite Wdel. exact Hone'.
   - (* rows are known to the index *)
-    rewrite Hallnew. intros x Hx. apply in_app_iff in Hx. destruct Hx as [Hx | [<- | []]].
+    rewrite Hallnew. simpl. intros x Hx. apply in_app_iff in Hx. destruct Hx as [Hx | [<- | []]].
     + destruct (li_rows _ _ H x Hx) as (tg & Hin). exists tg. apply HL'. left. exact Hin.
     + exists tags0. exact Win.
   - (* memtable rows have live ids *)
-    rewrite Wdel, Hmem1. intros x Hx. apply in_app_iff in Hx. destruct Hx as [Hx | [<- | []]].
+    simpl. rewrite Wdel, Hmem1. intros x Hx. apply in_app_iff in Hx. destruct Hx as [Hx | [<- | []]].
     + destruct (li_memlive _ _ H x Hx) as (tg & Hin & Hl). exists tg. split; auto. apply HL'. left. exact Hin.
     + exists tags0. split; [exact Win | exact Wlive].
-  - intros e He. apply HL' in He. destruct He as [He | [-> _]]; simpl.
+  - simpl. intros e He. apply HL' in He. destruct He as [He | [-> _]]; simpl.
     + apply (li_mbound _ _ H) in He. lia.
     + exact Hpmb.
-  - intros x Hx. unfold p1, ensure_mst in *. destruct (cur p n0) eqn:E; simpl in *.
-    + apply (li_cbound _ _ H) in Hx. lia.
-    + apply in_app_iff in Hx. destruct Hx as [Hx | [<- | []]]; simpl; [apply (li_cbound _ _ H) in Hx |]; lia.
-  - exact Hcinj1.
+  - simpl. intros x Hx. destruct (cur p c0) eqn:E.
+    + destruct (Hkept _ eq_refl) as (_ & Ec & En). rewrite Ec in Hx. rewrite En. apply (li_cbound _ _ H x Hx).
+    + destruct (Hfresh eq_refl) as (Ep & En & Ec). rewrite Ec in Hx. apply in_app_iff in Hx.
+      destruct Hx as [Hx | [<- | []]]; simpl; [apply (li_cbound _ _ H) in Hx |]; lia.
+  - (* keys of the catalogue are distinct *)
+    simpl. destruct (cur p c0) eqn:E.
+    + destruct (Hkept _ eq_refl) as (_ & Ec & _). rewrite Ec. apply (li_cnodup _ _ H).
+    + destruct (Hfresh eq_refl) as (_ & _ & Ec). rewrite Ec, map_app. simpl. apply nodup_snoc; [apply (li_cnodup _ _ H) |].
+      intros Hin. apply in_map_iff in Hin. destruct Hin as ([k m] & Ek & Hin). simpl in Ek. subst k.
+      rewrite (curl_of_in _ _ _ (li_cnodup _ _ H) Hin : cur p c0 = Some m) in E. discriminate.
+  - intros k1 k2 m. rewrite !HcurN. apply Hcinj1.
+  - (* every identity lives in an existing index *)
+    intros k m. rewrite HcurN, Hcur1. simpl. rewrite Hidx1. intros Hc. apply Zidx. destruct (cur p k) eqn:E.
+    + left. apply (li_curidx _ _ H k n E).
+    + destruct (ckey_eqb c0 k) eqn:E0; [| discriminate]. apply ckey_eqb_eq in E0. subst k. right. reflexivity.
+  - simpl. rewrite Htab1, Hidx1, Wdel. rewrite <- Zi. exact Zwired.
+  - (* a row's time lies in the group of its identity *)
+    rewrite Hallnew. intros x k Hx. rewrite HcurN. intros Hc. apply in_app_iff in Hx. destruct Hx as [Hx | [<- | []]].
+    + apply (li_rowgrp _ _ H x k Hx). apply Hcold; auto.
+      destruct (li_rows _ _ H x Hx) as (tg & Hin). apply (li_mbound _ _ H) in Hin. exact Hin.
+    + simpl in *. assert (k = c0) by (apply (Hcinj1 k c0 pm); auto). subst k. reflexivity.
   - (* a live series of a live incarnation has a visible row *)
-    rewrite Hallnew, lww_snoc, Wdel. intros k id n Hin Hlive Hc.
-    change (cur (mkP (p_cur p1) (p_nextm p1) ix' (p_deld p1) (p_mem p1 ++ [x0]) (p_files p1)) n) with (cur p1 n) in Hc.
+    rewrite Hallnew, lww_snoc. simpl. rewrite Wdel. intros k id ck Hin Hlive Hc.
+    change (cur pN ck) with (cur p1 ck) in Hc.
     destruct (in_dec entry_eq_dec (k, id) (d_L (p_ix p))) as [A | A].
-    + assert (Hc0 : cur p n = Some (s_mst k)).
-      { rewrite Hcur1 in Hc. destruct (cur p n) eqn:E; auto. destruct (n0 =? n) eqn:E0; [| discriminate].
-        apply N.eqb_eq in E0. subst n. destruct (Hfresh E) as [Hp _]. inversion Hc as [Hc'].
-        apply (li_mbound _ _ H) in A. simpl in A. lia. }
-      destruct (li_hasrow _ _ H k id n A Hlive Hc0) as (t & v & w & Hrow).
+    + assert (Hc0 : cur p ck = Some (s_mst k)) by (apply Hcold; auto; apply (li_mbound _ _ H) in A; exact A).
+      destruct (li_hasrow _ _ H k id ck A Hlive Hc0) as (t & v & w & Hrow).
       destruct (same_pt (mkR (s_mst k) id t v w) x0) eqn:Es.
       * apply same_pt_iff in Es. simpl in Es. destruct Es as (Em & Ei & Et). exists t0, v0, w0.
         apply in_app_iff. right. left. unfold x0. congruence.
       * exists t, v, w. apply in_app_iff. left. apply filter_In. split; auto. rewrite Es. reflexivity.
     + destruct (Hnew _ _ Hin A) as (-> & -> & _). exists t0, v0, w0. apply in_app_iff. right. left. reflexivity.
   - (* abstraction *)
-    intros n tags t v w. rewrite Hallnew, lww_snoc, Wdel. unfold s_write. rewrite in_app_iff, filter_In. simpl.
-    change (cur (mkP (p_cur p1) (p_nextm p1) ix' (p_deld p1) (p_mem p1 ++ [x0]) (p_files p1)) n) with (cur p1 n).
+    intros n tags t v w. rewrite Hallnew, lww_snoc. simpl. rewrite Wdel. unfold s_write. rewrite in_app_iff, filter_In. simpl.
+    change (cur pN (n, grp t)) with (cur p1 (n, grp t)).
     split.
     + intros [[HR Hns] | [Heq | []]].
       * (* an old row that is not overwritten *)
@@ -199,7 +271,8 @@ Proof.
         -- apply in_app_iff. left. apply filter_In. split; auto. apply negb_true_iff.
            destruct (same_pt (mkR m id t v w) x0) eqn:Es; auto. exfalso.
            apply same_pt_iff in Es. simpl in Es. destruct Es as (Em & Ei & Et). subst m id t.
-           assert (n = n0) by (apply (Hcinj1 n n0 pm); auto; rewrite Hcur1, Hc; reflexivity). subst n.
+           assert (Ek : (n, grp t0) = c0) by (apply (Hcinj1 _ c0 pm); auto; rewrite Hcur1, Hc; reflexivity).
+           inversion Ek; subst n.
            assert (Hk : mkS pm tags = k0) by (apply (dwf_uniq ix' _ _ id0 Hdwf'); auto; apply HL'; left; exact Hin).
            inversion Hk; subst tags. apply negb_true_iff in Hns.
            assert (same_lpt n0 tags0 t0 (mkL n0 tags0 t0 v w) = true) by (apply same_lpt_iff; simpl; auto). congruence.
@@ -211,19 +284,16 @@ Proof.
         { destruct (li_rows _ _ H _ (lww_in _ _ Hrow)) as (tg & Hin0). simpl in Hin0.
           assert (mkS m tg = mkS m tags) by (apply (dwf_uniq ix' _ _ id Hdwf'); auto; apply HL'; left; exact Hin0).
           congruence. }
-        assert (Hc0 : cur p n = Some m).
-        { rewrite Hcur1 in Hc. destruct (cur p n) eqn:E; auto. destruct (n0 =? n) eqn:E0; [| discriminate].
-          apply N.eqb_eq in E0. subst n. destruct (Hfresh E) as [Hp _]. inversion Hc; subst m.
-          apply (li_mbound _ _ H) in Hold. simpl in Hold. lia. }
+        assert (Hc0 : cur p (n, grp t) = Some m) by (apply Hcold; auto; apply (li_mbound _ _ H) in Hold; exact Hold).
         left. split.
         -- apply (li_abs _ _ H). exists m, id. auto.
         -- apply negb_true_iff. destruct (same_lpt n0 tags0 t0 (mkL n tags t v w)) eqn:Es; auto. exfalso.
            apply same_lpt_iff in Es. simpl in Es. destruct Es as (-> & -> & ->).
-           assert (m = pm) by congruence. subst m.
+           assert (m = pm) by (fold g0 c0 in Hc; congruence). subst m.
            assert (id = id0) by (apply (Hone' k0 id id0); auto; apply HL'; left; exact Hold).
            subst id. assert (same_pt (mkR pm id0 t0 v w) x0 = true) by (apply same_pt_iff; simpl; auto). congruence.
       * right. left. unfold x0 in Hrow. inversion Hrow; subst m id t v w.
-        assert (n = n0) by (apply (Hcinj1 n n0 pm); auto). subst n.
+        assert (Ek : (n, grp t0) = c0) by (apply (Hcinj1 _ c0 pm); auto). inversion Ek; subst n.
         assert (Hk : mkS pm tags = k0) by (apply (dwf_uniq ix' _ _ id0 Hdwf'); auto).
         inversion Hk; subst. reflexivity.
 Qed.
@@ -234,10 +304,12 @@ Lemma LI_ext p p' R :
   d_next (p_ix p') = d_next (p_ix p) -> p_deld p' = d_del (p_ix p') ->
   lww (p_all p') = lww (p_all p) -> (forall x, In x (p_all p') -> In x (p_all p)) ->
   (forall x, In x (p_mem p') -> In x (p_mem p)) ->
+  map fst (p_idx p') = map fst (p_idx p) ->
+  ((p_table p' = false -> d_del (p_ix p') = []) /\ (p_table p' = true -> forall x, In x (p_idx p') -> snd x = true)) ->
   LI p R -> LI p' R.
 Proof.
-  intros Ec En EL Ed Ex Edd Elww Hin Hmem H.
-  assert (Hcur : forall n, cur p' n = cur p n) by (intros n; unfold cur; rewrite Ec; reflexivity).
+  intros Ec En EL Ed Ex Edd Elww Hin Hmem Eidx Hw H.
+  assert (Hcur : forall k, cur p' k = cur p k) by (intros k; unfold cur; rewrite Ec; reflexivity).
   constructor; rewrite ?EL, ?Ed, ?En, ?Elww.
   - destruct (li_dwf _ _ H) as (A & B & C). unfold dwf. rewrite EL, Ed, Ex. auto.
   - rewrite Edd, Ed. reflexivity.
@@ -246,8 +318,12 @@ Proof.
   - intros x Hx. apply (li_memlive _ _ H). auto.
   - apply (li_mbound _ _ H).
   - rewrite Ec. apply (li_cbound _ _ H).
-  - intros n1 n2 pm. rewrite !Hcur. apply (li_cinj _ _ H).
-  - intros k id n. rewrite Hcur. apply (li_hasrow _ _ H).
+  - rewrite Ec. apply (li_cnodup _ _ H).
+  - intros k1 k2 pm. rewrite !Hcur. apply (li_cinj _ _ H).
+  - intros k pm. rewrite Hcur, Eidx. apply (li_curidx _ _ H).
+  - rewrite <- Ed. exact Hw.
+  - intros x k Hx. rewrite Hcur. apply (li_rowgrp _ _ H). auto.
+  - intros k id ck. rewrite Hcur. apply (li_hasrow _ _ H).
   - intros n tags t v w. rewrite (li_abs _ _ H). setoid_rewrite Hcur. reflexivity.
 Qed.
 
@@ -260,6 +336,7 @@ Proof.
   - rewrite E. reflexivity.
   - rewrite E. auto.
   - simpl. intros x [].
+  - apply (li_wired _ _ H).
 Qed.
 
 Lemma LI_compact p R i k : LI p R -> LI (p_compact p i k) R.
@@ -274,10 +351,11 @@ Proof.
   - simpl. apply (li_deld _ _ H).
   - rewrite Ea, Eb. apply lww_compact.
   - intros x. rewrite Ea, Eb, !in_app_iff. intros [A | [A | A]]; auto. right. left. apply lww_in. exact A.
+  - apply (li_wired _ _ H).
 Qed.
 
 Lemma LI_sync p R : LI p R -> LI (p_sync p) R.
-Proof. intros H. apply (LI_ext p); auto; reflexivity. Qed.
+Proof. intros H. apply (LI_ext p); auto; try reflexivity. apply (li_wired _ _ H). Qed.
 
 (* the WAL replay finds for every memtable row the id it has: the one live id of its key *)
 Lemma lookup_live_the s k id : NoDup (map snd (d_L s)) ->
@@ -300,16 +378,27 @@ Proof.
   rewrite IH; [| intros y Hy; apply Hrows; right; exact Hy]. rewrite <- app_assoc. simpl. destruct x; reflexivity.
 Qed.
 
+Lemma wire_all_fst l : map fst (wire_all l) = map fst l.
+Proof. unfold wire_all. rewrite map_map. reflexivity. Qed.
+Lemma wire_all_wired l x : In x (wire_all l) -> snd x = true.
+Proof. unfold wire_all. rewrite in_map_iff. intros (y & <- & _). reflexivity. Qed.
+
 Lemma LI_restart p R : LI p R -> LI (p_restart p) R.
 Proof.
   intros H. pose proof (li_dwf _ _ H) as ((Hnd & _) & _).
   assert (E : p_restart p = mkP (p_cur p) (p_nextm p) (mkD (d_L (p_ix p)) (p_deld p) (d_next (p_ix p)) (d_dead (p_ix p)))
+                                (match p_idx p with [] => p_table p | _ => true end)
+                                (match p_idx p with [] => [] | l => wire_all l end)
                                 (p_deld p) (p_mem p) (p_files p)).
   { unfold p_restart. rewrite replay_id; simpl; auto.
     - rewrite (li_deld _ _ H). apply (li_one _ _ H).
     - rewrite (li_deld _ _ H). apply (li_memlive _ _ H). }
   rewrite E. apply (LI_ext p); auto; try reflexivity; simpl.
   - apply (li_deld _ _ H).
+  - destruct (p_idx p) as [| a r]; [reflexivity | simpl; f_equal; apply wire_all_fst].
+  - rewrite (li_deld _ _ H). destruct (li_wired _ _ H) as [Hf Ht]. destruct (p_idx p) as [| a r] eqn:Ei.
+    + split; auto; intros _ x [].
+    + split; [discriminate |]. intros _ x [<- | Hx]; [reflexivity | eapply wire_all_wired; eauto].
 Qed.
 
 (* ---- DROP SERIES *)
@@ -324,137 +413,174 @@ Proof.
   intros H0 Hq. unfold p_drop_series. set (p := p_flush p0). assert (H : LI p R) by (apply LI_flush; exact H0).
   assert (Hmem0 : p_mem p = []) by reflexivity. clearbody p. clear H0.
   pose proof (li_dwf _ _ H) as Hdwf. destruct Hdwf as (Hwf & Hb & Hd).
-  destruct (cur p n0) as [pm |] eqn:Ec.
-  - set (ids := list_ids am (d_T (p_ix p)) (d_del (p_ix p)) pm q).
-    assert (Hids : forall id, In id ids <->
-              exists s, In (s, id) (d_L (p_ix p)) /\ ~ In id (d_del (p_ix p)) /\ s_mst s = pm /\ evalq am q (s_tags s) = true).
-    { intros id. unfold ids, d_T. apply list_ids_char; auto. }
-    constructor; simpl; fold ids.
+  set (ids := flat_map (fun gm : N * N => list_ids am (d_T (p_ix p)) (eff p (fst gm)) (snd gm) q) (pms p n0)).
+  (* the ids found: the live series of the measurement, in whatever index, that satisfy the predicate *)
+  assert (Hids : forall id, In id ids <->
+            exists g pm s, cur p (n0, g) = Some pm /\ In (s, id) (d_L (p_ix p)) /\ ~ In id (d_del (p_ix p)) /\
+                           s_mst s = pm /\ evalq am q (s_tags s) = true).
+  { intros id. unfold ids. rewrite in_flat_map. split.
+    - intros ([g pm] & Hgm & Hid). simpl in Hid. apply in_pms in Hgm. apply (cur_in_iff _ _ _ _ H) in Hgm.
+      rewrite (eff_ok p R g H (li_curidx _ _ H _ _ Hgm)) in Hid. unfold d_T in Hid.
+      apply (list_ids_char am _ _ pm q id Hwf Hq) in Hid. destruct Hid as (s & A & B & C & D). exists g, pm, s. auto.
+    - intros (g & pm & s & Hc & A & B & C & D). exists (g, pm). split.
+      + apply in_pms. apply (cur_in_iff _ _ _ _ H). exact Hc.
+      + simpl. rewrite (eff_ok p R g H (li_curidx _ _ H _ _ Hc)). unfold d_T.
+        apply (list_ids_char am _ _ pm q id Hwf Hq). exists s. auto. }
+  assert (Hkey : forall n tags t pm id, cur p (n, grp t) = Some pm -> In (mkS pm tags, id) (d_L (p_ix p)) ->
+                   ~ In id (d_del (p_ix p)) -> (In id ids <-> n = n0 /\ evalq am q tags = true)).
+  { intros n tags t pm id Hc Hin Hlive. rewrite Hids. split.
+    - intros (g & pm' & s & Hc' & A & _ & C & D).
+      assert (s = mkS pm tags) by (apply (uniq_id _ _ _ id (proj1 Hwf)); auto). subst s. simpl in *. subst pm'.
+      assert (Ek : (n0, g) = (n, grp t)) by (apply (li_cinj _ _ H _ _ pm); auto). inversion Ek. auto.
+    - intros [-> He]. exists (grp t), pm, (mkS pm tags). auto. }
+  assert (Habs : forall n tags t v w, In (mkL n tags t v w) (s_drop_series am R n0 q) <->
+     exists pm id, cur p (n, grp t) = Some pm /\ In (mkS pm tags, id) (d_L (p_ix p)) /\ ~ In id (d_del (p_ix p) ++ ids) /\
+                   In (mkR pm id t v w) (lww (p_all p))).
+  { intros n tags t v w. unfold s_drop_series. rewrite filter_In, (li_abs _ _ H). unfold named. simpl. split.
+    - intros [(m & id & Hc & Hin & Hlive & Hrow) Hnn]. exists m, id. repeat split; auto.
+      intros A. apply in_app_iff in A. destruct A as [A | A]; [contradiction |].
+      apply (Hkey n tags t m id Hc Hin Hlive) in A. destruct A as [-> He]. rewrite N.eqb_refl, He in Hnn. discriminate.
+    - intros (m & id & Hc & Hin & Hlive & Hrow).
+      assert (Hl : ~ In id (d_del (p_ix p))) by (intros A; apply Hlive; apply in_app_iff; auto). split.
+      + exists m, id. auto.
+      + apply negb_true_iff. destruct (n =? n0) eqn:En; simpl; auto. apply N.eqb_eq in En. subst n.
+        destruct (evalq am q tags) eqn:Ee; auto. exfalso. apply Hlive. apply in_app_iff. right.
+        apply (Hkey n0 tags t m id Hc Hin Hl). auto. }
+  destruct ids as [| i0 ir] eqn:Eids.
+  - (* nothing found: nothing happens *)
+    constructor; try apply H. intros n tags t v w. rewrite Habs, List.app_nil_r. reflexivity.
+  - rewrite <- Eids in *. clear Eids.
+    set (p' := mkP (p_cur p) (p_nextm p) (mkD (d_L (p_ix p)) (d_del (p_ix p) ++ ids) (d_next (p_ix p)) (d_dead (p_ix p)))
+                   true (if p_table p then p_idx p else wire_all (p_idx p)) (p_deld p ++ ids) (p_mem p) (p_files p)).
+    assert (Hcur : forall k, cur p' k = cur p k) by reflexivity.
+    assert (Hall : p_all p' = p_all p) by reflexivity.
+    constructor; fold p'; rewrite ?Hall; simpl.
     + unfold dwf. simpl. split; [exact Hwf | split; [exact Hb |]].
       intros id Hin. apply in_app_iff in Hin. destruct Hin as [Hin | Hin]; auto.
-      apply Hids in Hin. destruct Hin as (s & Hin & _). apply (Hb (s, id) Hin).
+      apply Hids in Hin. destruct Hin as (_ & _ & s & _ & Hin & _). apply (Hb (s, id) Hin).
     + rewrite (li_deld _ _ H). reflexivity.
     + intros k i1 i2 H1 H2 N1 N2. apply (li_one _ _ H k); auto; intros A; [apply N1 | apply N2]; apply in_app_iff; auto.
     + apply (li_rows _ _ H).
     + rewrite Hmem0. intros x [].
     + apply (li_mbound _ _ H).
     + apply (li_cbound _ _ H).
-    + apply (li_cinj _ _ H).
-    + intros k id n Hin Hlive Hc. apply (li_hasrow _ _ H k id n); auto. intros A. apply Hlive. apply in_app_iff. auto.
-    + intros n tags t v w. unfold s_drop_series. rewrite filter_In, (li_abs _ _ H). unfold named. simpl.
-      change (cur (mkP (p_cur p) (p_nextm p) (drop_series am (p_ix p) pm q) (p_deld p ++ ids) (p_mem p) (p_files p)) n) with (cur p n).
-      split.
-      * intros [(m & id & Hc & Hin & Hlive & Hrow) Hnn]. exists m, id. repeat split; auto.
-        intros A. apply in_app_iff in A. destruct A as [A | A]; [contradiction |].
-        apply Hids in A. destruct A as (s & Hin2 & _ & Hm & He).
-        assert (s = mkS m tags) by (apply (uniq_id _ _ _ id (proj1 Hwf)); auto). subst s. simpl in *. subst m.
-        assert (n = n0) by (apply (li_cinj _ _ H n n0 pm); auto). subst n.
-        rewrite N.eqb_refl, He in Hnn. discriminate.
-      * intros (m & id & Hc & Hin & Hlive & Hrow). split.
-        -- exists m, id. repeat split; auto. intros A. apply Hlive. apply in_app_iff. auto.
-        -- apply negb_true_iff. destruct (n =? n0) eqn:En; simpl; auto. apply N.eqb_eq in En. subst n.
-           destruct (evalq am q tags) eqn:Ee; auto. exfalso. apply Hlive. apply in_app_iff. right. apply Hids.
-           exists (mkS m tags). repeat split; auto; [intros A; apply Hlive; apply in_app_iff; auto | simpl; congruence].
-  - (* the measurement does not exist: nothing happens, and the reference has no row of it *)
-    constructor; try apply H.
-    intros n tags t v w. unfold s_drop_series. rewrite filter_In, (li_abs _ _ H). unfold named. simpl. split; [tauto |].
-    intros (m & id & Hc & Hr). split; [eauto |]. destruct (n =? n0) eqn:En; auto. apply N.eqb_eq in En. subst. congruence.
+    + apply (li_cnodup _ _ H).
+    + intros k1 k2 pm. rewrite !Hcur. apply (li_cinj _ _ H).
+    + intros k pm. rewrite Hcur. intros Hc. destruct (p_table p); [| rewrite wire_all_fst]; apply (li_curidx _ _ H k pm Hc).
+    + split; [discriminate |]. intros _ x Hx. destruct (p_table p) eqn:Et.
+      * apply (proj2 (li_wired _ _ H) Et x Hx).
+      * eapply wire_all_wired; eauto.
+    + intros x k Hx. rewrite Hcur. apply (li_rowgrp _ _ H x k Hx).
+    + intros k id ck Hin Hlive. rewrite Hcur. intros Hc. apply (li_hasrow _ _ H k id ck); auto.
+      intros A. apply Hlive. apply in_app_iff. auto.
+    + intros n tags t v w. rewrite Habs. setoid_rewrite Hcur. reflexivity.
 Qed.
 
 (* ---- DROP MEASUREMENT *)
 Lemma LI_drop_mst p R n0 : LI p R -> LI (p_drop_mst p n0) (s_drop_mst R n0).
 Proof.
-  intros H. unfold p_drop_mst. destruct (cur p n0) as [pm |] eqn:Ec.
-  - set (keep := fun r : prow => negb (r_m r =? pm)).
-    set (p' := mkP (filter (fun x => negb (fst x =? n0)) (p_cur p)) (p_nextm p) (p_ix p) (p_deld p)
-                   (filter keep (p_mem p)) (map (filter keep) (p_files p))).
-    assert (Eall : p_all p' = filter keep (p_all p)).
-    { unfold p_all, p'. simpl. rewrite concat_map_filter, filter_app. reflexivity. }
-    assert (Hkeep : forall a b, same_pt a b = true -> keep a = keep b).
-    { intros a b E. apply same_pt_iff in E. destruct E as (E & _). unfold keep. rewrite E. reflexivity. }
-    assert (Elww : lww (p_all p') = filter keep (lww (p_all p))) by (rewrite Eall; apply lww_filter; exact Hkeep).
-    assert (Hcur : forall n, cur p' n = if n =? n0 then None else cur p n).
-    { intros n. rewrite !cur_curl. unfold p'. simpl. apply curl_filter. }
-    constructor; try apply H; fold p'.
-    + intros x Hx. rewrite Eall in Hx. apply filter_In in Hx. apply (li_rows _ _ H). tauto.
-    + intros x Hx. simpl in Hx. apply filter_In in Hx. apply (li_memlive _ _ H). tauto.
-    + intros x Hx. simpl in Hx. apply filter_In in Hx. apply (li_cbound _ _ H). tauto.
-    + intros n1 n2 m. rewrite !Hcur. destruct (n1 =? n0); [discriminate |]. destruct (n2 =? n0); [discriminate |].
-      apply (li_cinj _ _ H).
-    + intros k id n Hin Hlive Hc. rewrite Hcur in Hc. destruct (n =? n0) eqn:En; [discriminate |].
-      destruct (li_hasrow _ _ H k id n Hin Hlive Hc) as (t & v & w & Hrow). exists t, v, w. rewrite Elww.
-      apply filter_In. split; auto. unfold keep. simpl. apply negb_true_iff. apply N.eqb_neq. intros E.
-      apply N.eqb_neq in En. apply En. apply (li_cinj _ _ H n n0 pm); congruence.
-    + intros n tags t v w. unfold s_drop_mst. rewrite filter_In, (li_abs _ _ H), Elww. simpl.
-      change (cur p' n) with (cur p' n). split.
-      * intros [(m & id & Hc & Hin & Hlive & Hrow) Hnn]. apply negb_true_iff in Hnn. exists m, id.
-        rewrite Hcur, Hnn. repeat split; auto. apply filter_In. split; auto. unfold keep. simpl.
-        apply negb_true_iff. apply N.eqb_neq. intros E. subst m. apply N.eqb_neq in Hnn. apply Hnn.
-        apply (li_cinj _ _ H n n0 pm); auto.
-      * intros (m & id & Hc & Hin & Hlive & Hrow). rewrite Hcur in Hc. destruct (n =? n0) eqn:En; [discriminate |].
-        apply filter_In in Hrow. split; auto. exists m, id. tauto.
-  - constructor; try apply H.
-    intros n tags t v w. unfold s_drop_mst. rewrite filter_In, (li_abs _ _ H). simpl. split; [tauto |].
-    intros (m & id & Hc & Hr). split; [eauto |]. apply negb_true_iff. apply N.eqb_neq. intros E. subst. congruence.
+  intros H. unfold p_drop_mst. set (dead := map snd (pms p n0)).
+  set (keep := fun r : prow => negb (mem (r_m r) dead)).
+  set (p' := mkP (filter (fun x => negb (fst (fst x) =? n0)) (p_cur p)) (p_nextm p) (p_ix p) (p_table p) (p_idx p) (p_deld p)
+                 (filter keep (p_mem p)) (map (filter keep) (p_files p))).
+  assert (Eall : p_all p' = filter keep (p_all p)).
+  { unfold p_all, p'. simpl. rewrite concat_map_filter, filter_app. reflexivity. }
+  assert (Hkeep : forall a b, same_pt a b = true -> keep a = keep b).
+  { intros a b E. apply same_pt_iff in E. destruct E as (E & _). unfold keep. rewrite E. reflexivity. }
+  assert (Elww : lww (p_all p') = filter keep (lww (p_all p))) by (rewrite Eall; apply lww_filter; exact Hkeep).
+  assert (Hcur : forall k, cur p' k = if fst k =? n0 then None else cur p k).
+  { intros k. rewrite !cur_curl. unfold p'. simpl. apply curl_filter. }
+  (* a row of an identity of the catalogue is deleted exactly when the identity belongs to the dropped measurement *)
+  assert (Hkr : forall x k, cur p k = Some (r_m x) -> keep x = negb (fst k =? n0)).
+  { intros x k Hc. unfold keep. destruct (mem (r_m x) dead) eqn:Em; simpl.
+    - apply mem_spec in Em. unfold dead in Em. apply in_map_iff in Em. destruct Em as ([g pm] & E & Hin). simpl in E. subst pm.
+      apply in_pms in Hin. apply (cur_in_iff _ _ _ _ H) in Hin.
+      assert (k = (n0, g)) by (apply (li_cinj _ _ H _ _ (r_m x)); auto). subst k. simpl. rewrite N.eqb_refl. reflexivity.
+    - destruct (fst k =? n0) eqn:En; auto. exfalso. apply N.eqb_eq in En. destruct k as [n g]. simpl in En. subst n.
+      assert (mem (r_m x) dead = true); [| congruence]. apply mem_spec. unfold dead. apply in_map_iff. exists (g, r_m x). split; auto.
+      apply in_pms. apply (cur_in_iff _ _ _ _ H). exact Hc. }
+  constructor; fold p'.
+  - apply (li_dwf _ _ H).
+  - apply (li_deld _ _ H).
+  - apply (li_one _ _ H).
+  - intros x Hx. rewrite Eall in Hx. apply filter_In in Hx. apply (li_rows _ _ H). tauto.
+  - intros x Hx. simpl in Hx. apply filter_In in Hx. apply (li_memlive _ _ H). tauto.
+  - apply (li_mbound _ _ H).
+  - intros x Hx. simpl in Hx. apply filter_In in Hx. apply (li_cbound _ _ H). tauto.
+  - simpl. apply nodup_map_filter. apply (li_cnodup _ _ H).
+  - intros k1 k2 m. rewrite !Hcur. destruct (fst k1 =? n0); [discriminate |]. destruct (fst k2 =? n0); [discriminate |].
+    apply (li_cinj _ _ H).
+  - intros k m. rewrite Hcur. destruct (fst k =? n0); [discriminate |]. apply (li_curidx _ _ H).
+  - apply (li_wired _ _ H).
+  - intros x k Hx. rewrite Eall in Hx. apply filter_In in Hx. rewrite Hcur. destruct (fst k =? n0); [discriminate |].
+    apply (li_rowgrp _ _ H). tauto.
+  - intros k id ck Hin Hlive Hc. rewrite Hcur in Hc. destruct (fst ck =? n0) eqn:En; [discriminate |].
+    destruct (li_hasrow _ _ H k id ck Hin Hlive Hc) as (t & v & w & Hrow). exists t, v, w. rewrite Elww.
+    apply filter_In. split; auto. rewrite (Hkr _ ck); simpl; auto. rewrite En. reflexivity.
+  - intros n tags t v w. unfold s_drop_mst. rewrite filter_In, (li_abs _ _ H), Elww. simpl. split.
+    + intros [(m & id & Hc & Hin & Hlive & Hrow) Hnn]. exists m, id. rewrite Hcur. simpl. apply negb_true_iff in Hnn. rewrite Hnn.
+      repeat split; auto. apply filter_In. split; auto. rewrite (Hkr _ (n, grp t)); simpl; auto. rewrite Hnn. reflexivity.
+    + intros (m & id & Hc & Hin & Hlive & Hrow). rewrite Hcur in Hc. simpl in Hc. destruct (n =? n0) eqn:En; [discriminate |].
+      apply filter_In in Hrow. split; auto. exists m, id. tauto.
 Qed.
 
 (* ---- reads *)
 Lemma LI_read am p R n q x : LI p R -> okq q -> In x (p_read am p n q) <-> In x (s_read am R n q).
 Proof.
   intros H Hq. pose proof (li_dwf _ _ H) as (Hwf & _). unfold p_read, s_read.
-  rewrite in_map_iff. destruct (cur p n) as [pm |] eqn:Ec.
-  - rewrite in_flat_map. split.
-    + intros (row & Hrow & Hx). apply filter_In in Hrow. destruct Hrow as [Hrow Hf].
-      apply andb_true_iff in Hf. destruct Hf as [Hm Hid]. apply N.eqb_eq in Hm. apply mem_spec in Hid.
-      unfold d_T in Hid. rewrite (read_repaired_exact am _ _ pm q _ Hwf Hq), spec_char in Hid.
-      destruct Hid as (s & Hin & Hlive & Hms & He).
-      apply in_map_iff in Hx. destruct Hx as (k & Ex & Hk). apply key_of_sound in Hk.
-      assert (k = s) by (apply (uniq_id _ _ _ (r_id row) (proj1 Hwf)); auto). subst k.
-      destruct row as [m id t v w]. destruct s as [ms tags]. simpl in *. subst m ms.
-      exists (mkL n tags t v w). split; auto. apply filter_In. split.
-      * apply (li_abs _ _ H). exists pm, id. auto.
-      * unfold named. simpl. rewrite N.eqb_refl, He. reflexivity.
-    + intros ([n' tags t v w] & Ex & Hlr). apply filter_In in Hlr. destruct Hlr as [Hin Hnamed].
-      unfold named in Hnamed. simpl in *. apply andb_true_iff in Hnamed. destruct Hnamed as [Hn He]. apply N.eqb_eq in Hn. subst n'.
-      apply (li_abs _ _ H) in Hin. destruct Hin as (m & id & Hc & HinL & Hlive & Hrow).
-      assert (m = pm) by congruence. subst m.
-      exists (mkR pm id t v w). split.
-      * apply filter_In. split; auto. simpl. rewrite N.eqb_refl. simpl. apply mem_spec. unfold d_T.
-        rewrite (read_repaired_exact am _ _ pm q _ Hwf Hq), spec_char. exists (mkS pm tags). auto.
-      * apply in_map_iff. exists (mkS pm tags). split; auto. simpl.
-        rewrite (key_of_in _ _ _ (proj1 Hwf) HinL). left. reflexivity.
-  - split; [intros [] |]. intros ([n' tags t v w] & _ & Hlr). apply filter_In in Hlr. destruct Hlr as [Hin Hnamed].
-    unfold named in Hnamed. simpl in Hnamed. apply andb_true_iff in Hnamed. destruct Hnamed as [Hn _]. apply N.eqb_eq in Hn. subst n'.
-    apply (li_abs _ _ H) in Hin. destruct Hin as (m & id & Hc & _). congruence.
+  rewrite in_map_iff, in_flat_map. split.
+  - intros ([g pm] & Hgm & Hx). simpl in Hx. apply in_pms in Hgm. apply (cur_in_iff _ _ _ _ H) in Hgm.
+    rewrite (eff_ok p R g H (li_curidx _ _ H _ _ Hgm)) in Hx.
+    apply in_flat_map in Hx. destruct Hx as (row & Hrow & Hx). apply filter_In in Hrow. destruct Hrow as [Hrow Hf].
+    apply andb_true_iff in Hf. destruct Hf as [Hm Hid]. apply N.eqb_eq in Hm. apply mem_spec in Hid.
+    unfold d_T in Hid. rewrite (read_repaired_exact am _ _ pm q _ Hwf Hq), spec_char in Hid.
+    destruct Hid as (s & Hin & Hlive & Hms & He).
+    apply in_map_iff in Hx. destruct Hx as (k & Ex & Hk). apply key_of_sound in Hk.
+    assert (k = s) by (apply (uniq_id _ _ _ (r_id row) (proj1 Hwf)); auto). subst k.
+    assert (Hg : grp (r_t row) = g) by (apply (li_rowgrp _ _ H row (n, g)); [apply lww_in; exact Hrow | rewrite Hm; exact Hgm]).
+    destruct row as [m id t v w]. destruct s as [ms tags]. simpl in *. subst m ms g.
+    exists (mkL n tags t v w). split; auto. apply filter_In. split.
+    + apply (li_abs _ _ H). exists pm, id. auto.
+    + unfold named. simpl. rewrite N.eqb_refl, He. reflexivity.
+  - intros ([n' tags t v w] & Ex & Hlr). apply filter_In in Hlr. destruct Hlr as [Hin Hnamed].
+    unfold named in Hnamed. simpl in *. apply andb_true_iff in Hnamed. destruct Hnamed as [Hn He]. apply N.eqb_eq in Hn. subst n'.
+    apply (li_abs _ _ H) in Hin. destruct Hin as (pm & id & Hc & HinL & Hlive & Hrow).
+    exists (grp t, pm). split; [apply in_pms; apply (cur_in_iff _ _ _ _ H); exact Hc |]. simpl.
+    rewrite (eff_ok p R (grp t) H (li_curidx _ _ H _ _ Hc)).
+    apply in_flat_map. exists (mkR pm id t v w). split.
+    + apply filter_In. split; auto. simpl. rewrite N.eqb_refl. simpl. apply mem_spec. unfold d_T.
+      rewrite (read_repaired_exact am _ _ pm q _ Hwf Hq), spec_char. exists (mkS pm tags). auto.
+    + apply in_map_iff. exists (mkS pm tags). split; auto. simpl.
+      rewrite (key_of_in _ _ _ (proj1 Hwf) HinL). left. reflexivity.
 Qed.
 
 Lemma LI_list am p R n q tg : LI p R -> okq q ->
   In tg (p_list am p n q) <-> In tg (map l_tags (filter (named am n q) R)).
 Proof.
   intros H Hq. pose proof (li_dwf _ _ H) as (Hwf & _). unfold p_list.
-  rewrite in_map_iff. destruct (cur p n) as [pm |] eqn:Ec.
-  - rewrite in_flat_map. split.
-    + intros (id & Hid & Hx). unfold d_T in Hid. apply (list_ids_char am _ _ pm q id Hwf Hq) in Hid.
-      destruct Hid as (s & Hin & Hlive & Hms & He).
-      apply in_map_iff in Hx. destruct Hx as (k & Ex & Hk). apply key_of_sound in Hk.
-      assert (k = s) by (apply (uniq_id _ _ _ id (proj1 Hwf)); auto). subst k.
-      assert (Hc : cur p n = Some (s_mst s)) by congruence.
-      destruct (li_hasrow _ _ H s id n Hin Hlive Hc) as (t & v & w & Hrow).
-      destruct s as [ms tags]. simpl in *. subst ms tg.
-      exists (mkL n tags t v w). split; auto. apply filter_In. split.
-      * apply (li_abs _ _ H). exists pm, id. auto.
-      * unfold named. simpl. rewrite N.eqb_refl, He. reflexivity.
-    + intros ([n' tags t v w] & Ex & Hlr). apply filter_In in Hlr. destruct Hlr as [Hin Hnamed].
-      unfold named in Hnamed. simpl in *. apply andb_true_iff in Hnamed. destruct Hnamed as [Hn He]. apply N.eqb_eq in Hn. subst n'.
-      apply (li_abs _ _ H) in Hin. destruct Hin as (m & id & Hc & HinL & Hlive & Hrow).
-      assert (m = pm) by congruence. subst m.
-      exists id. split.
-      * unfold d_T. apply (list_ids_char am _ _ pm q id Hwf Hq). exists (mkS pm tags). auto.
-      * apply in_map_iff. exists (mkS pm tags). split; auto.
-        rewrite (key_of_in _ _ _ (proj1 Hwf) HinL). left. reflexivity.
-  - split; [intros [] |]. intros ([n' tags t v w] & _ & Hlr). apply filter_In in Hlr. destruct Hlr as [Hin Hnamed].
-    unfold named in Hnamed. simpl in Hnamed. apply andb_true_iff in Hnamed. destruct Hnamed as [Hn _]. apply N.eqb_eq in Hn. subst n'.
-    apply (li_abs _ _ H) in Hin. destruct Hin as (m & id & Hc & _). congruence.
+  rewrite in_map_iff, in_flat_map. split.
+  - intros ([g pm] & Hgm & Hx). simpl in Hx. apply in_pms in Hgm. apply (cur_in_iff _ _ _ _ H) in Hgm.
+    rewrite (eff_ok p R g H (li_curidx _ _ H _ _ Hgm)) in Hx.
+    apply in_flat_map in Hx. destruct Hx as (id & Hid & Hx). unfold d_T in Hid.
+    apply (list_ids_char am _ _ pm q id Hwf Hq) in Hid. destruct Hid as (s & Hin & Hlive & Hms & He).
+    apply in_map_iff in Hx. destruct Hx as (k & Ex & Hk). apply key_of_sound in Hk.
+    assert (k = s) by (apply (uniq_id _ _ _ id (proj1 Hwf)); auto). subst k.
+    assert (Hc : cur p (n, g) = Some (s_mst s)) by congruence.
+    destruct (li_hasrow _ _ H s id (n, g) Hin Hlive Hc) as (t & v & w & Hrow).
+    assert (Hg : grp t = g) by (apply (li_rowgrp _ _ H (mkR (s_mst s) id t v w) (n, g)); [apply lww_in; exact Hrow | exact Hc]).
+    destruct s as [ms tags]. simpl in *. subst ms tg g.
+    exists (mkL n tags t v w). split; auto. apply filter_In. split.
+    + apply (li_abs _ _ H). exists pm, id. auto.
+    + unfold named. simpl. rewrite N.eqb_refl, He. reflexivity.
+  - intros ([n' tags t v w] & Ex & Hlr). apply filter_In in Hlr. destruct Hlr as [Hin Hnamed].
+    unfold named in Hnamed. simpl in *. apply andb_true_iff in Hnamed. destruct Hnamed as [Hn He]. apply N.eqb_eq in Hn. subst n'.
+    apply (li_abs _ _ H) in Hin. destruct Hin as (pm & id & Hc & HinL & Hlive & Hrow).
+    exists (grp t, pm). split; [apply in_pms; apply (cur_in_iff _ _ _ _ H); exact Hc |]. simpl.
+    rewrite (eff_ok p R (grp t) H (li_curidx _ _ H _ _ Hc)).
+    apply in_flat_map. exists id. split.
+    + unfold d_T. apply (list_ids_char am _ _ pm q id Hwf Hq). exists (mkS pm tags). auto.
+    + apply in_map_iff. exists (mkS pm tags). split; auto.
+      rewrite (key_of_in _ _ _ (proj1 Hwf) HinL). left. reflexivity.
 Qed.
 
 (* ---- the whole system against the whole reference *)
@@ -466,7 +592,7 @@ Proof. split; [reflexivity | constructor]. Qed.
 Lemma kupd_id {V} k (l : list (key * V)) : kupd k (fun x => x) l = l.
 Proof. unfold kupd. induction l as [| [k1 v] r IH]; simpl; auto. rewrite IH. destruct (key_eqb k1 k); reflexivity. Qed.
 
-Lemma GI_step am t s o : GI t s -> top_ok o -> GI (tstep true true am t o) (sstep am s o).
+Lemma GI_step am t s o : GI t s -> top_ok o -> GI (tstep true true true am t o) (sstep am s o).
 Proof.
   intros [Hd Hk] Hok. destruct o; simpl in *; rewrite <- ?Hd.
   - destruct (mem d (t_dbs t)); split; simpl; auto; try congruence.
@@ -482,7 +608,7 @@ Proof.
   - split; simpl; auto. rewrite <- (kupd_id (d, r) (s_pols s)). apply krel_kupd; auto. intros a b Hab. apply LI_restart; auto.
 Qed.
 
-Lemma GI_run am os : forall t s, GI t s -> Forall top_ok os -> GI (trun true true am t os) (srun am s os).
+Lemma GI_run am os : forall t s, GI t s -> Forall top_ok os -> GI (trun true true true am t os) (srun am s os).
 Proof.
   induction os as [| o r IH]; simpl; intros t s H Hok; auto.
   inversion Hok; subst. apply IH; auto. apply GI_step; auto.
@@ -491,25 +617,25 @@ Qed.
 (* THE REFINEMENT: after any sequence of operations, every read shape on every (database, policy, measurement) returns in the
    system model exactly the rows the reference holds for it; so does every listing *)
 Theorem tree_refines am os d r n q x : Forall top_ok os -> okq q ->
-  In x (tread am (trun true true am t0 os) d r n q) <-> In x (sread am (srun am s0 os) d r n q).
+  In x (tread am (trun true true true am t0 os) d r n q) <-> In x (sread am (srun am s0 os) d r n q).
 Proof.
   intros Hok Hq. pose proof (GI_run am os t0 s0 GI_0 Hok) as [_ Hk].
   unfold tread, sread. pose proof (krel_kget LI (d, r) _ _ Hk) as Hg.
-  destruct (kget (d, r) (t_pols (trun true true am t0 os))), (kget (d, r) (s_pols (srun am s0 os))); try contradiction; [| tauto].
+  destruct (kget (d, r) (t_pols (trun true true true am t0 os))), (kget (d, r) (s_pols (srun am s0 os))); try contradiction; [| tauto].
   apply LI_read; auto.
 Qed.
 Theorem tree_list_refines am os d r n q tg : Forall top_ok os -> okq q ->
-  In tg (tlist am (trun true true am t0 os) d r n q) <-> In tg (slist am (srun am s0 os) d r n q).
+  In tg (tlist am (trun true true true am t0 os) d r n q) <-> In tg (slist am (srun am s0 os) d r n q).
 Proof.
   intros Hok Hq. pose proof (GI_run am os t0 s0 GI_0 Hok) as [_ Hk].
   unfold tlist, slist. pose proof (krel_kget LI (d, r) _ _ Hk) as Hg.
-  destruct (kget (d, r) (t_pols (trun true true am t0 os))), (kget (d, r) (s_pols (srun am s0 os))); try contradiction; [| tauto].
+  destruct (kget (d, r) (t_pols (trun true true true am t0 os))), (kget (d, r) (s_pols (srun am s0 os))); try contradiction; [| tauto].
   apply LI_list; auto.
 Qed.
 
 (* =====================================================================================================================
    consequences, first on the reference machine, then transported to the system model by the refinement *)
-Lemma trun_app d f am t a b : trun d f am t (a ++ b) = trun d f am (trun d f am t a) b.
+Lemma trun_app d f w am t a b : trun d f w am t (a ++ b) = trun d f w am (trun d f w am t a) b.
 Proof. unfold trun. apply fold_left_app. Qed.
 Lemma srun_app am s a b : srun am s (a ++ b) = srun am (srun am s a) b.
 Proof. unfold srun. apply fold_left_app. Qed.
@@ -670,7 +796,7 @@ Qed.
 (* ---- the same for the system model *)
 Section Transport.
   Variable am : N -> N -> bool.
-  Notation run := (trun true true am t0).
+  Notation run := (trun true true true am t0).
 
   Theorem drop_exact ops X d r n q x : Forall top_ok (ops ++ [X]) -> okq q -> is_drop X = true ->
     In x (tread am (run (ops ++ [X])) d r n q) <-> In x (tread am (run ops) d r n q) /\ hit am X d r n (o_tags x) = false.
@@ -708,3 +834,14 @@ Section Transport.
     destruct (kget (d, r) (t_pols (run ops))); [| congruence]. destruct (kget (d, r) (s_pols (srun am s0 ops))); [discriminate | contradiction].
   Qed.
 End Transport.
+
+(* THE WIRING THEOREM INSIDE THE REFINEMENT: in every state the system model can reach, every series index of every policy consults
+   exactly the policy's deleted set (new indexes are wired at creation, the first DROP SERIES that creates the table wires what
+   exists, a restart wires everything) *)
+Theorem tree_wiring am os d r p g : Forall top_ok os ->
+  kget (d, r) (t_pols (trun true true true am t0 os)) = Some p -> In g (map fst (p_idx p)) -> eff p g = d_del (p_ix p).
+Proof.
+  intros Hok Hp Hg. pose proof (GI_run am os t0 s0 GI_0 Hok) as [_ Hk]. pose proof (krel_kget LI (d, r) _ _ Hk) as Hget.
+  rewrite Hp in Hget. destruct (kget (d, r) (s_pols (srun am s0 os))) as [R |]; [| contradiction].
+  eapply eff_ok; eauto.
+Qed.
